@@ -588,6 +588,11 @@ BRIDGE = {
         "theorems": ["online_key_new_eq", "responder_new_sim", "server_responders_sim"],
         "props": ["C10", "C02"],
     },
+    "Rough.Bridge.Kms": {
+        "rs_modules": ["Kms"],
+        "theorems": ["load_seed_eq", "load_seed_depends_on_seed_only"],
+        "props": ["C12", "C20"],
+    },
     "Rough.Bridge.Stats": {
         "rs_modules": ["StatsCore", "StatsAgg", "StatsPer"],
         "theorems": ["uniq_init", "uniq_record", "per_client_record_eq", "per_client_clear_eq", "per_client_totals_eq",
@@ -647,6 +652,7 @@ _BRIDGE_WHAT = {
     "Rough.Props.GenWorkers": "stated about the constructors as regenerated: any number of workers created from ONE seed (each with its own online seeds) get responders that are the model's Server.new responders, satisfy the server invariant the C18 theorem starts from, and carry certificates of the SAME long-term key (GEN_workers_one_identity / _same_identity)",
     "Rough.Props.GenConfig": "C16 stated about the regenerated loaders, ServerConfig getters and validator composed as main composes them: effective = written, out-of-range refused, missing required refused (GEN_start_file / GEN_start_env = the model start)",
     "Rough.Bridge.ResponderNew": "OnlineKey::new and Responder::new (online key from the drawn seed, certificate = make_cert of the SAME long-term key object for this version, empty queue and tree): the two responders created in Server::new's order are the model's Server.new responders",
+    "Rough.Bridge.Kms": "kms/mod.rs load_seed (the variant compiled without a KMS feature): with plaintext protection the seed used is the configured seed, a function of the configuration alone (no state, no cache); any other protection fails",
     "Rough.Bridge.SendResponses": "responder.rs send_responses (the whole batch loop incl. failing sends, fault injection, lazily evaluated debug! arguments, statistics events)",
 }
 for _pid, _cfg in PROPS.items():
